@@ -300,9 +300,10 @@ class CrcSpec:
     words since the last start, and -- when crc_width = k * data_width -- the last <= k words with the register
     they started from, so that "message followed by its own CRC / by another trailer" is decided by comparing
     words with the reference trailer, never through a residue."""
-    def __init__(self, p, dw, with_reset=False, alphabet=None, name=None, params_obj=None):
+    def __init__(self, p, dw, with_reset=False, alphabet=None, name=None, params_obj=None, proc_obj=None):
         self.p = tuple(p)
         self.params_obj = params_obj        # build the Processor from this existing Parameters object (history family)
+        self.proc_obj = proc_obj            # elaborate this existing Processor object (again)
         self.dw, self.with_reset, self.name = dw, with_reset, name
         self.alphabet = list(alphabet) if alphabet is not None else None
         w = self.p[0]
@@ -330,7 +331,10 @@ class CrcSpec:
             algo = getattr(catalog, self.name)
         else:
             algo = _algo(self.p)
-        proc = (self.params_obj if self.params_obj is not None else algo(self.dw)).create()
+        if self.proc_obj is not None:
+            proc = self.proc_obj
+        else:
+            proc = (self.params_obj if self.params_obj is not None else algo(self.dw)).create()
         m = Module()
         cd = ClockDomain("sync")
         m.domains.sync = cd
@@ -612,10 +616,13 @@ def _seq_hw_actions(p, dw):
     return (acts + [(0, 1, x, 0) for x in own] + [(0, 0, 0, 0)] + acts + [(0, 1, x, 0) for x in bad] + [(0, 0, 0, 0)])
 
 
-def _seq_simulate(params, name, p, dw, flags=None):
-    """params.create() in a short simulation -> (per-cycle (crc, match_detected), reference errors)"""
-    spec = CrcSpec(p, dw, False, [0], name, params_obj=params)      # the action alphabet is not used here
+def _seq_simulate(params, name, p, dw, flags=None, proc=None, run=True):
+    """params.create() (or the existing Processor `proc`) elaborated inside a fresh wrapper module and run in a short
+    simulation -> (per-cycle (crc, match_detected), reference errors); run=False: elaborate only"""
+    spec = CrcSpec(p, dw, False, [0], name, params_obj=params, proc_obj=proc)      # the action alphabet is not used here
     sysm = spec.build()
+    if not run:
+        return None
     box = {}
 
     def body(ctx):
@@ -741,6 +748,115 @@ def w_seq(task):
     return out
 
 
+# --- the same for ONE Processor object: elaborating / converting it again must not change what it does
+PROC_OPS = ("sim", "fragment", "rtlil")
+
+
+def proc_configs():
+    out = []
+    for w, poly, init, xorout in ((8, 0x2f, 0xa5, 0x35), (16, 0x1021, 0x1d0f, 0x1234)):
+        for refin in (False, True):
+            for refout in (False, True):
+                for dw in (1, 4, 8):
+                    out.append((None, (w, poly, init, refin, refout, xorout), dw))
+    for name in SEQ_CATALOGUE:
+        for dw in (1, 4, 8):
+            out.append((name, None, dw))
+    return out
+
+
+def _proc_op(op, dut, name, p, dw, simulate=True, flags=None):
+    try:
+        if op == "sim":
+            return _seq_simulate(None, name, p, dw, flags, proc=dut, run=simulate)
+        if op == "fragment":
+            from amaranth.hdl import Fragment
+            Fragment.get(dut, None)
+            return "ok"
+        if op == "rtlil":
+            from amaranth.back import rtlil
+            return rtlil.convert(dut, ports=[dut.start, dut.data, dut.valid, dut.crc, dut.match_detected])
+    except Exception as e:
+        return ("exc", type(e).__name__)
+    raise ValueError(op)
+
+
+def proc_fresh(name, p, dw, flags=None):
+    fresh, bad = {}, []
+    for op in PROC_OPS:
+        fresh[op] = _proc_op(op, _seq_new(name, p, dw).create(), name, p, dw, True, flags)
+    if not isinstance(fresh["sim"], tuple) or len(fresh["sim"]) != 2 or fresh["sim"][1]:
+        bad.append(("sim", fresh["sim"], "crc / match_detected as in the bit-serial model"))
+    if fresh["fragment"] != "ok":
+        bad.append(("fragment", fresh["fragment"], "no exception"))
+    if not isinstance(fresh["rtlil"], str):
+        bad.append(("rtlil", fresh["rtlil"], "RTLIL text"))
+    return fresh, bad
+
+
+def proc_run(name, p, dw, ops, fresh, flags=None, counters=None):
+    """one operation sequence on ONE Processor object -> first (position, op, got, want) differing from a fresh one"""
+    dut = _seq_new(name, p, dw).create()
+    for i, op in enumerate(ops):
+        got = _proc_op(op, dut, name, p, dw, simulate=i > 0, flags=flags)
+        if counters is not None:
+            counters["proc_operations"] += 1
+            counters["proc_simulations"] += (op == "sim" and i > 0)
+            counters["proc_rtlil_conversions"] += op == "rtlil"
+        if i > 0 and got != fresh[op]:
+            return (i, op, got, fresh[op])
+    return None
+
+
+def _diff_short(got, want):
+    if isinstance(got, str) and isinstance(want, str) and "\n" in want:
+        g, w = got.splitlines(), want.splitlines()
+        for k, (a, b) in enumerate(zip(g, w)):
+            if a != b:
+                return f"RTLIL line {k + 1}: {a.strip()!r} instead of {b.strip()!r} ({len(g)} / {len(w)} lines)"
+        return f"RTLIL of {len(g)} lines instead of {len(w)}"
+    return f"{_short(got)}; a fresh Processor gives {_short(want)}"
+
+
+def w_proc(task):
+    cfgs, maxlen = task
+    out = _new_out()
+    cov = out["cov"]
+    for k in ("proc_configurations", "proc_sequences", "proc_operations", "proc_simulations", "proc_rtlil_conversions",
+              "proc_later_ops_compared"):
+        cov[k] = 0
+    flags = set()
+    for name, p, dw in cfgs:
+        if name:
+            p = cat_params(name)
+        cov["proc_configurations"] += 1
+        fresh, bad = proc_fresh(name, p, dw, flags)
+        cov["proc_simulations"] += 1
+        cov["proc_rtlil_conversions"] += 1
+        tag = "proc" + _seq_tag(name, p, dw)[3:]
+        failed = []
+        for op, got, want in bad:
+            _viol(out, f"{tag}:fresh:{op}", f"{tag}: {op} of a fresh Processor = {_short(got)}, want {_short(want)}",
+                  {"kind": "proc_seq", "name": name, "p": list(p), "dw": dw, "ops": [op]})
+        for n in range(1, maxlen + 1):
+            for ops in itertools.product(PROC_OPS, repeat=n):
+                cov["proc_sequences"] += 1
+                cov["proc_later_ops_compared"] += n - 1
+                r = proc_run(name, p, dw, ops, fresh, flags, cov)
+                if r is not None:
+                    i, op, got, want = r
+                    bad_seq = tuple(ops[:i + 1])
+                    if any(_is_subsequence(f, bad_seq) for f in failed):
+                        cov["seq_failures_implied_by_shorter_ones"] = cov.get("seq_failures_implied_by_shorter_ones", 0) + 1
+                        continue
+                    failed.append(bad_seq)
+                    _viol(out, f"{tag}:{'>'.join(bad_seq)}",
+                          f"{tag}: on one Processor object, after {list(ops[:i])} the operation {op} gives {_diff_short(got, want)}",
+                          {"kind": "proc_seq", "name": name, "p": list(p), "dw": dw, "ops": list(bad_seq)}, cap=10)
+    out["flags"] = sorted("proc_" + f for f in flags)
+    return out
+
+
 # ------------------------------------------------------------------------------------------- plan
 def hw_small_configs(rep):
     """(p, dw, with_reset) for every small parameter set"""
@@ -774,7 +890,7 @@ def hw_small_configs(rep):
 def _dispatch(t):
     kind, arg = t
     return kind, {"sw_small": w_sw_small, "sw_cat": w_sw_catalog, "hw_small": w_hw_small, "hw_cat": w_hw_catalog,
-                  "seq": w_seq}[kind](arg)
+                  "seq": w_seq, "proc": w_proc}[kind](arg)
 
 
 def run(rep):
@@ -843,6 +959,12 @@ def run(rep):
     seq_len = rep.pick(3, 4)
     for c in seq_configs():
         tasks.append(("seq", ([c], seq_len)))
+    for c in proc_configs():
+        tasks.append(("proc", ([c], seq_len)))
+    rep.setcov("proc_rule", f"every sequence of length <= {seq_len} over {list(PROC_OPS)} on ONE Processor object (sim = elaborate it inside "
+               "a fresh wrapper module + fresh Simulator, fragment = Fragment.get(dut, None), rtlil = rtlil.convert(dut, ports)); every "
+               "simulation trace and RTLIL text after the first operation must equal that of a fresh Processor (whose trace must agree "
+               "with the bit-serial model)")
     rep.setcov("seq_rule", f"every sequence of length <= {seq_len} over {list(SEQ_OPS)} on ONE Parameters object; each operation after the "
                "first must give the result of the same operation on a fresh Parameters object (which itself must agree with the "
                "bit-serial model); create = short simulation of crc / match_detected on a valid and a corrupted codeword")
@@ -875,10 +997,14 @@ def run(rep):
     for f in need:
         rep.require(f in flags, f"flag {f} never observed")
     rep.require(rep.cov.get("sw_evaluations", 0) > 0 and rep.cov.get("sw_nontrivial", 0) >= 2, "software enumeration ran")
-    for f in ("seq_own_trailer", "seq_other_trailer", "seq_match1", "seq_match0"):
+    for f in ("seq_own_trailer", "seq_other_trailer", "seq_match1", "seq_match0", "proc_own_trailer", "proc_other_trailer",
+              "proc_match1", "proc_match0"):
         rep.require(f in flags, f"flag {f} never observed")
     rep.require(rep.cov.get("seq_hw_simulations", 0) > rep.cov.get("seq_configurations", 0) > 0 and
                 rep.cov.get("seq_later_ops_compared", 0) > 0, "operation sequences with a later create() were simulated")
+    rep.require(rep.cov.get("proc_simulations", 0) > rep.cov.get("proc_configurations", 0) > 0 and
+                rep.cov.get("proc_rtlil_conversions", 0) > rep.cov.get("proc_configurations", 0),
+                "a Processor object was simulated / converted again after an earlier elaboration")
     for kind in CONTAINER_KINDS:
         rep.require(rep.cov.get("sw_sequences_as_" + kind, 0) > 0, f"word sequences handed to compute() as {kind}")
     rep.require(rep.cov.get("sw_bytes_refin_non_octet_evaluations", 0) > 0, "bytes/bytearray input with reflect_input and data_width != 8")
@@ -909,6 +1035,15 @@ def replay(payload):
         r = seq_run(name, p, dw, ops, fresh)
         if r is not None:
             res.append(f"after {ops[:r[0]]} on the same Parameters object, {r[1]} gives {_short(r[2])}, a fresh object gives {_short(r[3])}")
+        return res
+    if kind == "proc_seq":
+        name, dw, ops = payload.get("name"), payload["dw"], payload["ops"]
+        p = cat_params(name) if name else tuple(payload["p"])
+        fresh, bad = proc_fresh(name, p, dw)
+        res = [f"fresh {op}: got {_short(g)}, want {_short(w)}" for op, g, w in bad if op in ops]
+        r = proc_run(name, p, dw, ops, fresh)
+        if r is not None:
+            res.append(f"after {ops[:r[0]]} on the same Processor object, {r[1]} gives {_diff_short(r[2], r[3])}")
         return res
     if kind in ("hw", "hw_trace"):
         spec = CrcSpec.from_cfg(payload["cfg"])
